@@ -122,10 +122,17 @@ def run(ctx):
         nz = (rs.randn(npol, n) + 1j * rs.randn(npol, n)) * 1e-4 if noisy else None
         if it % 4 == 0:
             s, nz = s.real + 0j, (None if nz is None else nz.real + 0j)
+        if it % 6 == 1:                 # integer-valued samples stored with an integer dtype, arbitrary gain
+            s = np.round(s.real * 500) + 0j
+            nz = None if nz is None else np.round(nz.real * 5e4) + 0j
+        if it % 5 == 3:
+            with warnings.catch_warnings():
+                warnings.simplefilter("ignore")
+                gv(R=rnd.choice([4e9, 3e9]), fs=rnd.choice([10e9, 25e9]))          # fs/R not an integer: fs is what counts
         G, NF = rnd.uniform(0, 40) if it % 7 else 0.0, rnd.uniform(3, 10)
         np.random.seed(1000 + it)
-        one(s if npol == 2 else s[0], None if nz is None else (nz if npol == 2 else nz[0]), G, NF, ("random", npol, noisy, round(G)), dtype_k=1 if it % 4 == 0 else 0)
-        ctx.case(("random", npol, noisy, int(G) // 10, it % 4 == 0, n > 100))
+        one(s if npol == 2 else s[0], None if nz is None else (nz if npol == 2 else nz[0]), G, NF, ("random", npol, noisy, round(G)), dtype_k=2 if it % 6 == 1 else (1 if it % 4 == 0 else 0))
+        ctx.case(("random", npol, noisy, int(G) // 10, it % 4 == 0, n > 100, it % 6 == 1, it % 5 == 3))
         if it % 9 == 1 and npol == 2 and noisy:
             # a two-polarisation input whose y signal is empty but whose y noise is not (e.g. the output of a previous EDFA)
             s2 = s.copy(); s2[1] = 0
